@@ -24,7 +24,12 @@ CLAIM = dict(
          "every per-K result can be read back unchanged - for every update rule that drops only zero weight changes, "
          "in particular the repaired rule `fac != 0`; with discarded results iteration 0 satisfies the same equation "
          "(and a refinement iteration would raise, which run() prevents); the original rule `abs(fac) > 1e-8` provably "
-         "leaves result_all off by 1e-8*r once a point of weight 1e-8 is refined (adpt_mesh=[1,1,100], 5 refinements).",
+         "leaves result_all off by 1e-8*r once a point of weight 1e-8 is refined (adpt_mesh=[1,1,100], 5 refinements). "
+         "An iteration in which nothing is evaluated (all new children absorbed by evaluated points) still needs the "
+         "update (corollary), and the rule `skip the update when nothing was evaluated` provably keeps a stale result. "
+         "Storage names: for every history of iterations, deletions of new points and restarts, every K-point is stored "
+         "under the name equal to its position, distinct K-points never share a file and every file read back holds its "
+         "own point's result; the rules `name before deletion` and `name from a per-call counter` provably collide.",
     note="Trusted: Lean kernel + Mathlib; the harness (event tracing by wrapping divide/absorb/exclude_equiv_points "
          "in the harness process, no source change). The model is per result component; linearity of Result.__mul__/"
          "__add__, pickling of per-K results, symmetrisation and the selection of points (K.max) are exercised on the "
@@ -35,6 +40,10 @@ TRUSTED = [
     "process.set_result in the three storage modes, KpointBZ.get_result/set_result/dump_result/clear_result/"
     "get_result_factor, KpointBZparallel.divide (parent factor -> 0, children factor/prod(ndiv)), absorb (factor added), "
     "deletion of absorbed new points by exclude_equiv_points",
+    "storage names modelled separately (NState/NEvent: directory as map name -> content, name = position in K_list at the "
+    "top of the loop body for the points behind nk_prev, dump/read back, run-level deletions, restarts); this justifies "
+    "the per-K-point `file` field of the bookkeeping model.  The two models are tied to the code separately, not to each "
+    "other by a refinement proof",
     "abstracted (arbitrary in the theorems): WHICH points are selected (K.max / argsort) and WHICH points are "
     "equivalent (star, distGamma, refinement_level) - the theorems hold for every choice; the geometry is C06's subject",
     "not modelled (oracle only): Result arithmetic of the real classes, symmetrize, savedata files, pickling of "
@@ -93,7 +102,7 @@ def traced(tr):
         res = orig["ex_kp"](K_list, new_points)
         for a, b in tr.absorbs:
             ia, ib = tr.idx(a), tr.idx(b)
-            tr.ops.append(("m", ia, ib))
+            tr.ops.append(("m", ia, ib, "run-level"))
             del tr.shadow[ib]
         tr.absorbs = []
         return res
@@ -106,7 +115,7 @@ def traced(tr):
         fac_before = self.factor
         out = orig["divide"](self, ndiv, periodic, use_symmetry=use_symmetry)
         children = tr.children_all if tr.children_all is not None else list(out)
-        tr.ops.append(("d", i, children, fac_before, int(np.prod(ndiv))))
+        tr.ops.append(("d", i, children, fac_before, int(np.prod(ndiv)), list(out)))
         tr.shadow.extend(children)
         for a, b in tr.absorbs:
             ia, ib = tr.idx(a), tr.idx(b)
@@ -122,6 +131,8 @@ def traced(tr):
         res = orig["process"](paralfunc, K_list, **kw)
         tr.K_list = K_list
         tr.shadow = list(K_list)
+        if not tr.iters:
+            tr.first_list = list(K_list)
         tr.iters.append(dict(ops=tr.ops, factors=[k.factor for k in K_list], n=len(K_list),
                              evaluated=[bool(k.was_evaluated_flag) for k in K_list]))
         tr.ops = []
@@ -287,9 +298,27 @@ def protocol_of_trace(tr, K, val):
         its.append(";".join(ops) if ops else "_")
     return rs, fs, its, changed_old, bad
 
+def name_events(tr, cfg, key, skip_first=False):
+    """events of the storage-name model for the iterations of one traced call: per iteration the values of the
+    K-points appended by the divide() calls (iteration 0: the initial list) and the positions deleted at run level"""
+    evs = []
+    for j, t in enumerate(tr.iters):
+        if j == 0:
+            if skip_first:
+                continue
+            objs = tr.first_list
+            dels = []
+        else:
+            objs = [c for op in t["ops"] if op[0] == "d" for c in op[5]]
+            dels = [op[2] for op in t["ops"] if op[0] == "m" and len(op) == 4]
+        evs.append(f"{rats(own_value(cfg, key, o)[0] for o in objs)}:{','.join(str(x) for x in dels) if dels else '_'}")
+    return evs
+
+
 def corr(ctx):
     rng = ctx.rng
     lines, checks = [], []
+    nlines, nchecks = [], []
     d = rg.scratch("c10corr")
     N = ctx.n(18, 160)
     # plan: (configuration, deep?, restart spec or None).  restart = (iterations of the first call, restart_iteration,
@@ -317,7 +346,8 @@ def corr(ctx):
                 first_saved = 0
             else:
                 n1, rit, m = restart
-                do_run(cfg, store, d, "c", niter=n1)
+                tr1 = Trace()
+                do_run(cfg, store, d, "c", niter=n1, trace=tr1)
                 res, pre, kl = do_run(cfg, store, d, "c", trace=tr, niter=m, extra=dict(restart=True, restart_iteration=rit))
                 first_saved = rit if rit >= 0 else n1 + rit + 1
             if tr.problems:
@@ -347,6 +377,23 @@ def corr(ctx):
                                first=first_saved, nmerge=sum(1 for t in tr.iters for op in t["ops"] if op[0] == "m")))
             ctx.case(signature=(str(sorted((k, str(v)) for k, v in cfg.items())), store, str(restart),
                                 str([len(t["ops"]) for t in tr.iters])), nontrivial=changed_old)
+            if store == "dump" and key in ("hash", "peak", "spike"):
+                evs = name_events(tr, cfg, key) if restart is None else \
+                    name_events(tr1, cfg, key) + ["R"] + name_events(tr, cfg, key, skip_first=True)
+                Kd = rg.read_klist(kl)
+                got_names, got_read = [], []
+                for kp in Kd:
+                    pth = getattr(kp, "result_storage_path", None)
+                    got_names.append(os.path.basename(pth)[4:-7] if pth else "N")
+                    try:
+                        import pickle
+                        with open(pth, "rb") as fh:
+                            got_read.append(F(np.ravel(pickle.load(fh).results[key].data)[0]))
+                    except Exception:
+                        got_read.append(None)
+                nlines.append(f"names iterstart {'|'.join(evs)}")
+                nchecks.append(dict(case=case, names=got_names, read=got_read))
+                ctx.count("corr.storage_names.campaigns")
             ctx.count(f"corr.store={store}")
             ctx.count("corr.restarted_call(replayed)" if restart is not None else "corr.plain_run")
             ctx.count("corr.deep[1,1,100]" if deep else ("corr.dyadic(exact)" if cfg["dyadic"] else "corr.non_dyadic(rounding)"))
@@ -360,7 +407,24 @@ def corr(ctx):
                 ctx.count("corr.events.evaluated_point_with_weight_gained_weight", gained)
                 if cur["n"] == nold and any(a_ != b_ for a_, b_ in zip(prev["factors"], cur["factors"])):
                     ctx.count("corr.iterations_without_new_evaluation_but_weights_moved")
-    out = ctx.lean(lines)
+    allout = ctx.lean(lines + nlines)
+    out = allout[:len(lines)]
+    for l, o, c in zip(nlines, allout[len(lines):], nchecks):
+        ctx.case(signature=l, nontrivial=True)
+        parts = o.split("@")
+        if len(parts) != 4 or parts[3] != "0":
+            ctx.mismatch(f"storage-name model returned {o[:80]}", dict(c["case"], line=l[:300]))
+            continue
+        mnames = parts[0].split(",") if parts[0] != "_" else []
+        mread = [None if x == "X" else Fr(x) for x in parts[1].split(",")] if parts[1] != "_" else []
+        if mnames != c["names"]:
+            ctx.mismatch(f"storage names: code {c['names'][:40]} model {mnames[:40]}", dict(c["case"], line=l[:300]))
+        elif len(mread) != len(c["read"]) or any(
+                a_ is None or b_ is None or abs(a_ - b_) > Fr(1, 10 ** 12) * max(1, abs(a_)) for a_, b_ in zip(mread, c["read"])):
+            bad = [i for i, (a_, b_) in enumerate(zip(mread, c["read"]))
+                   if a_ is None or b_ is None or abs(a_ - b_) > Fr(1, 10 ** 12) * max(1, abs(a_))]
+            ctx.mismatch(f"content of the storage files differs from the model's at K-points {bad[:10]}",
+                         dict(c["case"], line=l[:300]))
     for l, o, c in zip(lines, out, checks):
         case = c["case"]
         states = o.split(" ")
@@ -506,6 +570,8 @@ def oracle(ctx, scale):
                     last = np.array(rg.load_saved(pre, key, niter), dtype=float).ravel()
                     if np.abs(np.array(res.results[key].data, dtype=float).ravel() - last).max() > 0:
                         ctx.fail(f"{store}: returned '{key}' differs from the one saved after the last iteration", case)
+                if store == "dump":
+                    check_own_files(ctx, kl, cfg, "dump_results run", case)
             # storage modes agree with each other after every iteration
             for t in range(niter + 1):
                 for key in keys:
@@ -534,6 +600,46 @@ def oracle(ctx, scale):
             ctx.count(f"oracle.iterations={niter}")
     rg.cleanup()
     oracle_restarted(ctx, scale)
+
+
+def own_value(cfg, key, kp):
+    """what the toy calculator `key` returns for this K-point, recomputed from its coordinates (independent of
+    anything run() stored)"""
+    calc = make_calcs(cfg)[key]
+    return np.array(calc.value(np.array(kp.K, dtype=float) / np.array(kp.NKFFT, dtype=float)), dtype=float)
+
+
+def check_own_files(ctx, kl, cfg, what, case):
+    """dump_results: distinct K-points of K_list.pickle have distinct storage files, named after their position, and
+    every file holds the result of ITS OWN K-point (recomputed from the K-point's coordinates)"""
+    K = rg.read_klist(kl)
+    keys = [k for k in cfg["calcs"] if k in ("hash", "peak", "spike")]
+    seen = {}
+    for ik, kp in enumerate(K):
+        path = getattr(kp, "result_storage_path", None)
+        ctx.count("oracle.own_file.points_checked")
+        if path is None or not os.path.exists(path):
+            ctx.fail(f"{what}: K-point {ik} of K_list.pickle has no storage file ({path})", dict(case, ik=ik))
+            return False
+        if path in seen:
+            ctx.fail(f"{what}: K-points {seen[path]} and {ik} share the storage file {os.path.basename(path)}",
+                     dict(case, ik=ik))
+            return False
+        seen[path] = ik
+        if os.path.basename(path) != f"_Kp-{ik}.pickle":
+            ctx.fail(f"{what}: K-point {ik} is stored in {os.path.basename(path)}", dict(case, ik=ik))
+            return False
+        with open(path, "rb") as f:
+            import pickle
+            res = pickle.load(f)
+        for key in keys:
+            got = np.array(res.results[key].data, dtype=float).ravel()
+            want = own_value(cfg, key, kp).ravel()
+            if got.shape != want.shape or np.abs(got - want).max() > 1e-12 * max(1.0, np.abs(want).max()):
+                ctx.fail(f"{what}: the file {os.path.basename(path)} of K-point {ik} does not hold that K-point's own "
+                         f"'{key}' result (file {got}, own {want})", dict(case, ik=ik))
+                return False
+    return True
 
 
 def oracle_restarted(ctx, scale):
@@ -612,6 +718,8 @@ def oracle_restarted(ctx, scale):
                                      f"its last iteration {last}", sub)
                             ok = False
                     ctx.count("oracle.restarted.call.latest" if rit == -1 else "oracle.restarted.call.earlier_iteration")
+                    if ok and store == "dump":
+                        ok = check_own_files(ctx, kl, cfg, f"dump_results, after restart_iteration={rit}", sub)
                 ctx.case(signature=("rst", str(sorted((k, str(v)) for k, v in case.items()))), nontrivial=True)
     rg.cleanup()
 
